@@ -22,6 +22,7 @@ PROP = "C06"
 MISSING_C = "<missing>"
 
 UNIVERSE = {
+    "lits": ["a", "b"], "grids": [["list", [1]], ["list", []]],
     "nums": [0, 1, 2], "words": ["", "a", "b"], "tags": [0, 1, 2], "labels": ["", "a", "b"], "scores": [0, 1, 2],
     "kids": [["Leaf", {}], ["Leaf", {"x": 1}]], "pairs": [["Leaf", {}], ["Leaf", {"x": 1}]],
     "units": [["Keyed", {"key": "a"}], ["Keyed", {"key": "b", "n": 1}], ["Keyed", {"key": "c"}]],
@@ -73,6 +74,10 @@ def gen_ops(kind, K, ln, with_prep, small):
             kwn = {"x": 3} if nested == "Leaf" else {"key": "k", "n": 3}
             call("with", "with:kw", **kwn)
             fld = "x" if nested == "Leaf" else "n"
+            if ln and kind not in ("links",):
+                # the same object at several positions: later edits of one position must not show at the others
+                call("with", "with:alias_existing", ["elem", 0])
+                call("with", "with:alias_existing_insert", ["elem", ln - 1], _index=0, _insert=True)
             for i in idx:
                 call("update", "update:kw_by_index", i, _by_index=True, **{fld: 4})
                 call("transform", "transform:attrfn_by_index", i, _by_index=True, **{fld: FN("inc")})
@@ -137,6 +142,10 @@ def plainify(kind, c):
 
 
 def item_conforms(kind, x, env):
+    if kind == "lits":
+        return isinstance(x, str) and x in ("a", "b")
+    if kind == "grids":
+        return isinstance(x, list) and all(isinstance(y, int) for y in x)
     if kind in ("nums", "tags", "scores"):
         return isinstance(x, int)
     if kind in ("words", "labels"):
@@ -162,7 +171,7 @@ def ref_apply(kind, env, content, op, with_prep):
     """expected plain content after op (or raises Expect(families)).  `content` is a fresh plain
     copy and may be edited."""
     m = op["m"].split("_")[0]
-    args = [env.mk(a) for a in op["args"]]
+    args = [(content[a[1]] if isinstance(a, list) and a and a[0] == "elem" else env.mk(a)) for a in op["args"]]
     kw = {k: env.mk(v) for k, v in op["kw"].items()}
     flags = {k: kw.pop(k) for k in list(kw) if k.startswith("_")}
     c = content
@@ -377,7 +386,8 @@ def judge(env, rec, hist, op2):
     except Expect as e:
         exp_c, exp_raise = None, e.fams
     G.CB.reset()
-    out = S.execute(w, op2, adopt=False)
+    op_exec = dict(op2, args=[(["elem", n, a[1]] if isinstance(a, list) and a and a[0] == "elem" else a) for a in op2["args"]])
+    out = S.execute(w, op_exec, adopt=False)
     case = {"rec": rec, "history": [dict(o) for o in hist], "op": op2}
     sig = {"attr_kind": kind, "shape": op2["shape"], "inplace": inplace, "item_preparer": with_prep,
            "default": rec["attrs"][0].get("default", "none")}
@@ -440,8 +450,9 @@ def explore_kind(task):
                         if out.raised or exp_c != pre_canon:
                             C.nontrivial((repr(pre_canon), repr(op2)))
                     if ok and inplace and not out.raised and exp_c not in seen and size(exp) <= max_len and depth < max_len:
-                        seen[exp_c] = hist + (op2,)
-                        nxt.append(hist + (op2,))
+                        op_h = dict(op2, args=[(["elem", n, a[1]] if isinstance(a, list) and a and a[0] == "elem" else a) for a in op2["args"]])
+                        seen[exp_c] = hist + (op_h,)
+                        nxt.append(hist + (op_h,))
         frontier = nxt
         depth += 1
     C.rec["states"] = len(seen)
